@@ -130,6 +130,14 @@ func (x *Exec) relevantDefs(assumes []*Term, defs []map[*Term]bool, goalParts ..
 }
 
 func (ob *Obligation) Script(getModel bool) string {
+	s, mts := ob.scriptTerms(getModel)
+	// printing only reads the (immutable) term nodes: it runs outside the lock, so the obligations of one function
+	// are printed in parallel
+	return s.String(getModel, mts)
+}
+
+// scriptTerms builds the assertions of the query (under the function's lock: it creates terms).
+func (ob *Obligation) scriptTerms(getModel bool) (*Script, []*Term) {
 	x := ob.x
 	x.mu.Lock()
 	defer x.mu.Unlock()
@@ -271,7 +279,8 @@ func (ob *Obligation) Script(getModel bool) string {
 				mts = append(mts, it.Term)
 			}
 		}
-		return s.String(getModel, mts)
+		s.PrepareFacts(mts)
+		return s, mts
 	}
 	if ob.Case != nil && !ob.Case.IsTrue() {
 		// specialise the query to the case: facts of the form t == const (and the case's atoms) are substituted
@@ -299,7 +308,8 @@ func (ob *Obligation) Script(getModel bool) string {
 			mts = append(mts, it.Term)
 		}
 	}
-	return s.String(getModel, mts)
+	s.PrepareFacts(mts)
+	return s, mts
 }
 
 // assertSmall (refutation pass): ask for a counterexample whose string and slice parameters are at most
